@@ -106,4 +106,19 @@ PROPS["C03"] = dict(
     assumptions=["hSig: a signature recovers a given signer for at most one digest", "hH: keccak256 injective on signing payloads"],
 )
 
+PROPS["C18"] = dict(
+    lean_modules=["QuaiVerif.Props.C18"],
+    areas=[dict(name="trie", n_quick=300, n_thorough=5000, seeds_thorough=3, n_search=1200)],
+    rule="a case is one history of 1-300 updates/deletes/gets on a real trie.Trie or SecureTrie (keys with shared prefixes, keys that are prefixes of one "
+         "another, empty key, values shorter/longer than 32 bytes and single bytes below/above 0x80), with commit+reload at arbitrary points and Prove/VerifyProof "
+         "(incl. one single-bit corruption per proof); or a DeriveSha run over 0-270 items (around the 0x7f/0x80 and 1-byte/2-byte index boundaries). Non-trivial: all",
+    level_text="The Lean trie model (insert/delete/get, compact encoding, RLP, node embedding, concrete keccak-256) reproduces every root, lookup and proof of the "
+               "real trie byte for byte on random histories; theorems: see Props/C18.lean (lookup-after-insert refinement to a finite map for all tries and keys; "
+               "history independence of content). History independence of the *root*, reload, proof exactness and stack-trie = full-trie are additionally "
+               "checked on the real code by rebuilding from the final content in other orders.",
+    level_note="Trusted: Lean kernel; harness; keccak-256/RLP are executable Lean code validated against the real roots (not verified). Partial: uniqueness of the "
+               "canonical form (root is a function of content) is not yet a Lean theorem - it is enforced by the T3 rebuild oracle; VerifyRangeProof and the node iterator are not covered.",
+    assumptions=["keys are used in hex-nibble form with terminator, as keybytesToHex produces"],
+)
+
 NOT_APPLICABLE = {}
